@@ -122,12 +122,15 @@ theorem concludePar_root4 (s s' : DC) (q : Par) (hd : s.depth = 4) (hq : s.openP
 /-- the tree after a flat paragraph: one record appended to the cell at the caret -/
 theorem walk_paragraph_at4 (cfg : PartCfg) (num : Dict Str (List NumAttr)) (c : Bool) (s s' : DC)
     (i : Nat) (p : Option Str) (t : QName) (m : NsMap) (a : List (QName × Str)) (tx tl : Option Str) (ks : List Xml)
-    (hx : (Xml.elem i p t m a tx tl ks).ptag = paragraphTag) (hk : flatInlineL ks = true) (hd : s.depth = 4)
+    (hx : (Xml.elem i p t m a tx tl ks).ptag = paragraphTag) (hk : flatInlineL ks = true) (hd : s.depth = 4) (hni : NoImpl s)
     (h : walk cfg num c s (.elem i p t m a tx tl ks) = .ok s') :
-    ∃ q, modAt 3 s.root (fun xs => pure (xs ++ [.par q])) = .ok s'.root ∧ s'.depth = 4 := by
+    ∃ q, modAt 3 s.root (fun xs => pure (xs ++ [.par q])) = .ok s'.root ∧ s'.depth = 4 ∧ s'.openPars = s.openPars := by
+  have hop0 : s'.openPars = s.openPars := by
+    obtain ⟨_, _, _, _, e, _⟩ := walk_paragraph cfg num c s s' i p t m a tx tl ks hx hk hni h
+    exact e
   have hdep := elemDepth_par _ hx rfl
   have hl : ((Xml.elem i p t m a tx tl ks).ptag == hyperlinkTag) = false := by rw [hx]; exact paragraphTag_ne.2.2
-  simp only [walk, hdep, hl, Bool.false_eq_true, if_false] at h
+  simp only [walk, hdep, hl, Bool.false_eq_true, if_false, setCaretOpen_noImpl s _ _ hni] at h
   obtain ⟨s1, h1, h⟩ := bind_ok h
   obtain ⟨hr1, hd1⟩ := setCaret_same s s1 4 _ hd (by omega) (by omega) h1
   obtain ⟨roots, hr, h⟩ := bind_ok h
@@ -145,23 +148,27 @@ theorem walk_paragraph_at4 (cfg : PartCfg) (num : Dict Str (List NumAttr)) (c : 
   obtain ⟨body, _, g3⟩ := walkL_flat cfg num ks _ s2 s3 hk ht2 h3
   obtain ⟨q, hq⟩ := g3.hasTop
   obtain ⟨s4, h4, h⟩ := bind_ok h
-  unfold closeStep at h4
+  rw [closeStep_noImpl cfg s3 _ (grow_noImpl g3 (openParagraph_noImpl cfg s1 s2 c i p t m a tx tl ks hop))] at h4
+  unfold closeStepCore at h4
   simp only [hm] at h4
   obtain ⟨hm4, hd4⟩ := concludePar_root4 s3 s4 q (by rw [g3.depth]; exact hd2) hq h4
   obtain ⟨hr5, hd5⟩ := setCaret_same s4 s' 4 none hd4 (by omega) (by omega) h
-  refine ⟨q, ?_, hd5⟩
+  refine ⟨q, ?_, hd5, hop0⟩
   rw [hr5, ← hr1, ← hr2, ← g3.root]; exact hm4
 
 /-- … and when the caret is at row level, the paragraph first opens a new cell -/
 theorem walk_paragraph_at3 (cfg : PartCfg) (num : Dict Str (List NumAttr)) (c : Bool) (s s' : DC)
     (i : Nat) (p : Option Str) (t : QName) (m : NsMap) (a : List (QName × Str)) (tx tl : Option Str) (ks : List Xml)
     (hx : (Xml.elem i p t m a tx tl ks).ptag = paragraphTag) (hk : flatInlineL ks = true) (hd : s.depth = 3) (r : List Nest)
-    (hr0 : modAt 2 s.root (fun xs => pure (xs ++ [.list []])) = .ok r)
+    (hr0 : modAt 2 s.root (fun xs => pure (xs ++ [.list []])) = .ok r) (hni : NoImpl s)
     (h : walk cfg num c s (.elem i p t m a tx tl ks) = .ok s') :
-    ∃ q, modAt 3 r (fun xs => pure (xs ++ [.par q])) = .ok s'.root ∧ s'.depth = 4 := by
+    ∃ q, modAt 3 r (fun xs => pure (xs ++ [.par q])) = .ok s'.root ∧ s'.depth = 4 ∧ s'.openPars = s.openPars := by
+  have hop0 : s'.openPars = s.openPars := by
+    obtain ⟨_, _, _, _, e, _⟩ := walk_paragraph cfg num c s s' i p t m a tx tl ks hx hk hni h
+    exact e
   have hdep := elemDepth_par _ hx rfl
   have hl : ((Xml.elem i p t m a tx tl ks).ptag == hyperlinkTag) = false := by rw [hx]; exact paragraphTag_ne.2.2
-  simp only [walk, hdep, hl, Bool.false_eq_true, if_false] at h
+  simp only [walk, hdep, hl, Bool.false_eq_true, if_false, setCaretOpen_noImpl s _ _ hni] at h
   obtain ⟨s1, h1, h⟩ := bind_ok h
   have hr1 : s1.root = r ∧ s1.depth = 4 := by
     obtain ⟨s2, h2, hr2, hd2, _⟩ := setCaret_down1 s (some t.name) (by omega) r (by rw [hd]; exact hr0)
@@ -183,11 +190,12 @@ theorem walk_paragraph_at3 (cfg : PartCfg) (num : Dict Str (List NumAttr)) (c : 
   obtain ⟨body, _, g3⟩ := walkL_flat cfg num ks _ s2 s3 hk ht2 h3
   obtain ⟨q, hq⟩ := g3.hasTop
   obtain ⟨s4, h4, h⟩ := bind_ok h
-  unfold closeStep at h4
+  rw [closeStep_noImpl cfg s3 _ (grow_noImpl g3 (openParagraph_noImpl cfg s1 s2 c i p t m a tx tl ks hop))] at h4
+  unfold closeStepCore at h4
   simp only [hm] at h4
   obtain ⟨hm4, hd4⟩ := concludePar_root4 s3 s4 q (by rw [g3.depth]; exact hd2) hq h4
   obtain ⟨hr5, hd5⟩ := setCaret_same s4 s' 4 none hd4 (by omega) (by omega) h
-  refine ⟨q, ?_, hd5⟩
+  refine ⟨q, ?_, hd5, hop0⟩
   rw [hr5, ← hr1, ← hr2, ← g3.root]; exact hm4
 
 /-! ## elements the walk passes through without any effect -/
@@ -244,8 +252,8 @@ theorem walk_inert (cfg : PartCfg) (num : Dict Str (List NumAttr)) :
     have ho : ∀ s1, openStep cfg s1 (.elem i p t m a tx tl ks) c [] = .ok (s1, true) := by
       intro s1; unfold openStep; rw [h.1]; rfl
     have hc : ∀ s1, closeStep cfg s1 (.elem i p t m a tx tl ks) = .ok s1 := by
-      intro s1; unfold closeStep; rw [h.1]; rfl
-    simp only [walk, hd, hl, DC.setCaret, pure, Except.pure, ok_bind, Bool.false_eq_true, if_false, ho, if_true,
+      intro s1; rw [closeStep_depth_none cfg s1 _ hd]; unfold closeStepCore; rw [h.1]; rfl
+    simp only [walk, hd, hl, setCaretOpen_none, DC.setCaret, pure, Except.pure, ok_bind, Bool.false_eq_true, if_false, ho, if_true,
       walkL_inert cfg num ks h.2, hc]
   | .comment _ _, _, _, _ => rfl
   | .pi _, _, _, _ => rfl
@@ -297,12 +305,12 @@ theorem leafParsL_T4 (T R C P : List Nest) : leafParsL (T4 T R C P) = leafParsL 
   simp [T4, leafParsL_append, leafParsL, leafParsT]
 
 theorem parFrom_of_walk (cfg : PartCfg) (num : Dict Str (List NumAttr)) (c : Bool) (s s' : DC) (k : Xml)
-    (hk : isFlatPar k = true) (h : walk cfg num c s k = .ok s') (q : Par)
+    (hk : isFlatPar k = true) (hni : NoImpl s) (h : walk cfg num c s k = .ok s') (q : Par)
     (hl : leafParsL s'.root = leafParsL s.root ++ [q]) : ParFrom cfg k q := by
   cases k with
   | elem i p t m a tx tl ks =>
     simp only [isFlatPar, Bool.and_eq_true, beq_iff_eq] at hk
-    obtain ⟨par, body, bb, h1, _, _, _, h5, h6, _, h8, _⟩ := walk_paragraph cfg num c s s' i p t m a tx tl ks hk.1 hk.2 h
+    obtain ⟨par, body, bb, h1, _, _, _, h5, h6, _, h8, _⟩ := walk_paragraph cfg num c s s' i p t m a tx tl ks hk.1 hk.2 hni h
     rw [h1] at hl
     have : par = q := by simpa using hl
     subst this
@@ -324,57 +332,57 @@ theorem flatPar_inert_excl (k : Xml) (h : isFlatPar k = true) : inert k = false 
   | pi _ => simp [isFlatPar] at h
 
 theorem walk_flatPar4 (cfg : PartCfg) (num : Dict Str (List NumAttr)) (c : Bool) (s s' : DC) (k : Xml)
-    (hk : isFlatPar k = true) (T R C P : List Nest) (hd : s.depth = 4) (hr : s.root = T4 T R C P)
-    (h : walk cfg num c s k = .ok s') : ∃ q, s'.root = T4 T R C (P ++ [.par q]) ∧ s'.depth = 4 ∧ ParFrom cfg k q := by
+    (hk : isFlatPar k = true) (T R C P : List Nest) (hd : s.depth = 4) (hr : s.root = T4 T R C P) (hni : NoImpl s)
+    (h : walk cfg num c s k = .ok s') : ∃ q, s'.root = T4 T R C (P ++ [.par q]) ∧ s'.depth = 4 ∧ ParFrom cfg k q ∧ s'.openPars = s.openPars := by
   have hk0 := hk
   cases k with
   | elem i p t m a tx tl ks =>
     simp only [isFlatPar, Bool.and_eq_true, beq_iff_eq] at hk
-    obtain ⟨q, hm, hd'⟩ := walk_paragraph_at4 cfg num c s s' i p t m a tx tl ks hk.1 hk.2 hd h
+    obtain ⟨q, hm, hd', hop⟩ := walk_paragraph_at4 cfg num c s s' i p t m a tx tl ks hk.1 hk.2 hd hni h
     rw [hr, modAt3_T4] at hm
     simp only [pure, Except.pure, ok_bind] at hm
     have hr' := (Except.ok.inj hm).symm
-    refine ⟨q, hr', hd', parFrom_of_walk cfg num c s s' _ hk0 h q ?_⟩
+    refine ⟨q, hr', hd', parFrom_of_walk cfg num c s s' _ hk0 hni h q ?_, hop⟩
     rw [hr', hr, leafParsL_T4, leafParsL_T4, leafParsL_append]
     simp [leafParsL, leafParsT]
   | comment _ _ => simp [isFlatPar] at hk
   | pi _ => simp [isFlatPar] at hk
 
 theorem walk_flatPar3 (cfg : PartCfg) (num : Dict Str (List NumAttr)) (c : Bool) (s s' : DC) (k : Xml)
-    (hk : isFlatPar k = true) (T R C : List Nest) (hd : s.depth = 3) (hr : s.root = T3 T R C)
-    (h : walk cfg num c s k = .ok s') : ∃ q, s'.root = T4 T R C [.par q] ∧ s'.depth = 4 ∧ ParFrom cfg k q := by
+    (hk : isFlatPar k = true) (T R C : List Nest) (hd : s.depth = 3) (hr : s.root = T3 T R C) (hni : NoImpl s)
+    (h : walk cfg num c s k = .ok s') : ∃ q, s'.root = T4 T R C [.par q] ∧ s'.depth = 4 ∧ ParFrom cfg k q ∧ s'.openPars = s.openPars := by
   have hk0 := hk
   cases k with
   | elem i p t m a tx tl ks =>
     simp only [isFlatPar, Bool.and_eq_true, beq_iff_eq] at hk
     have hr0 : modAt 2 s.root (fun xs => pure (xs ++ [Nest.list []])) = .ok (T4 T R C []) := by
       rw [hr, modAt2_T3]; rfl
-    obtain ⟨q, hm, hd'⟩ := walk_paragraph_at3 cfg num c s s' i p t m a tx tl ks hk.1 hk.2 hd _ hr0 h
+    obtain ⟨q, hm, hd', hop⟩ := walk_paragraph_at3 cfg num c s s' i p t m a tx tl ks hk.1 hk.2 hd _ hr0 hni h
     rw [modAt3_T4] at hm
     simp only [pure, Except.pure, ok_bind] at hm
     have hr' : s'.root = T4 T R C [.par q] := by simpa using (Except.ok.inj hm).symm
-    refine ⟨q, hr', hd', parFrom_of_walk cfg num c s s' _ hk0 h q ?_⟩
+    refine ⟨q, hr', hd', parFrom_of_walk cfg num c s s' _ hk0 hni h q ?_, hop⟩
     rw [hr', hr, leafParsL_T4, leafParsL_T3]
     simp [leafParsL, leafParsT]
   | comment _ _ => simp [isFlatPar] at hk
   | pi _ => simp [isFlatPar] at hk
 
 theorem walkL_cell4 (cfg : PartCfg) (num : Dict Str (List NumAttr)) (c : Bool) (T R C : List Nest) :
-    ∀ (ks : List Xml), cellKids ks = true → ∀ (P : List Nest) (s s' : DC), s.depth = 4 → s.root = T4 T R C P →
+    ∀ (ks : List Xml), cellKids ks = true → ∀ (P : List Nest) (s s' : DC), s.depth = 4 → s.root = T4 T R C P → NoImpl s →
       walkL cfg num c s ks = .ok s' →
       ∃ Q, s'.root = T4 T R C (P ++ Q) ∧ s'.depth = 4 ∧ Q.length = countPars ks ∧ AllPar Q ∧
-        ParsFrom cfg (ks.filter isFlatPar) Q
-  | [], _, P, s, s', hd, hr, h => by
+        ParsFrom cfg (ks.filter isFlatPar) Q ∧ s'.openPars = s.openPars
+  | [], _, P, s, s', hd, hr, hni, h => by
     simp only [walkL] at h; have := pure_ok h; subst this
-    exact ⟨[], by simpa using hr, hd, rfl, by intro n hn; simp at hn, ParsFrom.nil⟩
-  | k :: ks, hk, P, s, s', hd, hr, h => by
+    exact ⟨[], by simpa using hr, hd, rfl, by intro n hn; simp at hn, ParsFrom.nil, rfl⟩
+  | k :: ks, hk, P, s, s', hd, hr, hni, h => by
     simp only [cellKids, Bool.and_eq_true, Bool.or_eq_true] at hk
     simp only [walkL] at h
     obtain ⟨s1, h1, h⟩ := bind_ok h
     rcases hk.1 with hp | hi
-    · obtain ⟨q, hr1, hd1, hpf⟩ := walk_flatPar4 cfg num c s s1 k hp T R C P hd hr h1
-      obtain ⟨Q, hrq, hdq, hlen, hall, hfrom⟩ := walkL_cell4 cfg num c T R C ks hk.2 _ s1 s' hd1 hr1 h
-      refine ⟨.par q :: Q, by rw [hrq]; simp, hdq, ?_, ?_, ?_⟩
+    · obtain ⟨q, hr1, hd1, hpf, hop1⟩ := walk_flatPar4 cfg num c s s1 k hp T R C P hd hr hni h1
+      obtain ⟨Q, hrq, hdq, hlen, hall, hfrom, hopq⟩ := walkL_cell4 cfg num c T R C ks hk.2 _ s1 s' hd1 hr1 (NoImpl_of_openPars hop1 hni) h
+      refine ⟨.par q :: Q, by rw [hrq]; simp, hdq, ?_, ?_, ?_, hopq.trans hop1⟩
       · simp [countPars, List.filter_cons, hp, hlen]
       · intro n hn; rcases List.mem_cons.1 hn with rfl | hn
         · exact ⟨q, rfl⟩
@@ -382,32 +390,34 @@ theorem walkL_cell4 (cfg : PartCfg) (num : Dict Str (List NumAttr)) (c : Bool) (
       · rw [List.filter_cons]; simp only [hp, if_true]; exact ParsFrom.cons hpf hfrom
     · rw [walk_inert cfg num k hi c s] at h1
       cases h1
-      obtain ⟨Q, hrq, hdq, hlen, hall, hfrom⟩ := walkL_cell4 cfg num c T R C ks hk.2 P s s' hd hr h
+      obtain ⟨Q, hrq, hdq, hlen, hall, hfrom, hopq⟩ := walkL_cell4 cfg num c T R C ks hk.2 P s s' hd hr hni h
       have : isFlatPar k = false := by
         cases hf : isFlatPar k with
         | false => rfl
         | true => rw [flatPar_inert_excl k hf] at hi; simp at hi
-      refine ⟨Q, hrq, hdq, ?_, hall, ?_⟩
+      refine ⟨Q, hrq, hdq, ?_, hall, ?_, hopq⟩
       · simp [countPars, List.filter_cons, this, hlen]
       · rw [List.filter_cons]; simp only [this, Bool.false_eq_true, if_false]; exact hfrom
 
 /-- from row level: the first paragraph opens the cell -/
 theorem walkL_cell3 (cfg : PartCfg) (num : Dict Str (List NumAttr)) (c : Bool) (T R C : List Nest) :
-    ∀ (ks : List Xml), cellKids ks = true → ∀ (s s' : DC), s.depth = 3 → s.root = T3 T R C →
+    ∀ (ks : List Xml), cellKids ks = true → ∀ (s s' : DC), s.depth = 3 → s.root = T3 T R C → NoImpl s →
       walkL cfg num c s ks = .ok s' →
-      (countPars ks = 0 ∧ s'.root = T3 T R C ∧ s'.depth = 3) ∨
+      s'.openPars = s.openPars ∧
+      ((countPars ks = 0 ∧ s'.root = T3 T R C ∧ s'.depth = 3) ∨
       (∃ Q, s'.root = T4 T R C Q ∧ s'.depth = 4 ∧ Q.length = countPars ks ∧ Q ≠ [] ∧ AllPar Q ∧
-        ParsFrom cfg (ks.filter isFlatPar) Q)
-  | [], _, s, s', hd, hr, h => by
+        ParsFrom cfg (ks.filter isFlatPar) Q))
+  | [], _, s, s', hd, hr, hni, h => by
     simp only [walkL] at h; have := pure_ok h; subst this
-    exact Or.inl ⟨rfl, hr, hd⟩
-  | k :: ks, hk, s, s', hd, hr, h => by
+    exact ⟨rfl, Or.inl ⟨rfl, hr, hd⟩⟩
+  | k :: ks, hk, s, s', hd, hr, hni, h => by
     simp only [cellKids, Bool.and_eq_true, Bool.or_eq_true] at hk
     simp only [walkL] at h
     obtain ⟨s1, h1, h⟩ := bind_ok h
     rcases hk.1 with hp | hi
-    · obtain ⟨q, hr1, hd1, hpf⟩ := walk_flatPar3 cfg num c s s1 k hp T R C hd hr h1
-      obtain ⟨Q, hrq, hdq, hlen, hall, hfrom⟩ := walkL_cell4 cfg num c T R C ks hk.2 _ s1 s' hd1 hr1 h
+    · obtain ⟨q, hr1, hd1, hpf, hop1⟩ := walk_flatPar3 cfg num c s s1 k hp T R C hd hr hni h1
+      obtain ⟨Q, hrq, hdq, hlen, hall, hfrom, hopq⟩ := walkL_cell4 cfg num c T R C ks hk.2 _ s1 s' hd1 hr1 (NoImpl_of_openPars hop1 hni) h
+      refine ⟨hopq.trans hop1, ?_⟩
       right
       refine ⟨.par q :: Q, by rw [hrq]; simp, hdq, ?_, by simp, ?_, ?_⟩
       · simp [countPars, List.filter_cons, hp, hlen]
@@ -421,7 +431,9 @@ theorem walkL_cell3 (cfg : PartCfg) (num : Dict Str (List NumAttr)) (c : Bool) (
         cases hf : isFlatPar k with
         | false => rfl
         | true => rw [flatPar_inert_excl k hf] at hi; simp at hi
-      rcases walkL_cell3 cfg num c T R C ks hk.2 s s' hd hr h with ⟨h0, hr', hd'⟩ | ⟨Q, hrq, hdq, hlen, hne, hall, hfrom⟩
+      obtain ⟨hop, hrest⟩ := walkL_cell3 cfg num c T R C ks hk.2 s s' hd hr hni h
+      refine ⟨hop, ?_⟩
+      rcases hrest with ⟨h0, hr', hd'⟩ | ⟨Q, hrq, hdq, hlen, hne, hall, hfrom⟩
       · left
         have e : countPars (k :: ks) = countPars ks := by unfold countPars; rw [List.filter_cons]; simp [this]
         exact ⟨by rw [e]; exact h0, hr', hd'⟩
@@ -633,16 +645,62 @@ theorem elemDepth_regCell (x : Xml) (h : regCell x = true) : elemDepth x = some 
   | comment _ _ => simp [regCell] at h
   | pi _ => simp [regCell] at h
 
+theorem vmergeDo_openPars (ti ri : Nat) (s s' : DC) (h : vmergeDo ti ri s = .ok s') : s'.openPars = s.openPars := by
+  unfold vmergeDo at h
+  obtain ⟨s1, h1, h⟩ := bind_ok h
+  have f1 := (setCaret_frame s s1 _ _ h1).openPars
+  obtain ⟨_, _, h⟩ := bind_ok h
+  obtain ⟨_, _, h⟩ := bind_ok h
+  split at h
+  · have := pure_ok h; subst this; exact f1
+  · split at h
+    · have := pure_ok h; subst this; exact f1
+    · have := pure_ok h; subst this; exact f1
+
+theorem spanStep_openPars (dup : Bool) (ti ri : Nat) (s s' : DC) (h : spanStep dup ti ri s = .ok s') : s'.openPars = s.openPars := by
+  unfold spanStep at h
+  obtain ⟨s1, h1, h⟩ := bind_ok h
+  have f1 := (setCaret_frame s s1 _ _ h1).openPars
+  obtain ⟨_, _, h⟩ := bind_ok h
+  have := pure_ok h; subst this; exact f1
+
+theorem iterateM_openPars (f : DC → M DC) (hf : ∀ a b, f a = .ok b → b.openPars = a.openPars) :
+    ∀ (n : Nat) (s s' : DC), iterateM f n s = .ok s' → s'.openPars = s.openPars
+  | 0, s, s', h => by simp only [iterateM] at h; have := pure_ok h; subst this; rfl
+  | n+1, s, s', h => by
+    simp only [iterateM] at h
+    obtain ⟨s1, h1, h⟩ := bind_ok h
+    exact (iterateM_openPars f hf n s1 s' h).trans (hf s s1 h1)
+
+/-- `_close_table_cell` works on the tree only: the open paragraphs are not touched -/
+theorem closeTableCell_openPars (dup : Bool) (s s' : DC) (tc : Xml) (h : closeTableCell dup s tc = .ok s') :
+    s'.openPars = s.openPars := by
+  unfold closeTableCell at h
+  split at h
+  · have := pure_ok h; subst this; rfl
+  · obtain ⟨pr, _, h⟩ := bind_ok h
+    obtain ⟨cap, _, h⟩ := bind_ok h
+    split at h
+    · have := pure_ok h; subst this; rfl
+    · obtain ⟨s1, h1, h⟩ := bind_ok h
+      obtain ⟨n, _, h⟩ := bind_ok h
+      have e1 : s1.openPars = s.openPars := by
+        unfold vmergeStep at h1
+        split at h1
+        · exact vmergeDo_openPars _ _ s s1 h1
+        · have := pure_ok h1; subst this; rfl
+      exact (iterateM_openPars _ (fun a b hab => spanStep_openPars dup _ _ a b hab) n s1 s' h).trans e1
+
 /-- **a regular cell** walked at row level: its paragraphs form one cell at the next grid column —
 replaced by the copy of the cell above when it continues a vertical merge and duplication is on —
 followed by `gridSpan − 1` further cells (copies, or single empty paragraphs). -/
 theorem walk_regCell (cfg : PartCfg) (num : Dict Str (List NumAttr)) (c : Bool) (x : Xml) (hx : regCell x = true)
     (pr : Dict Str (Option Str)) (n : Nat) (hpr : gatherPr x = .ok pr) (hn : spanExtra pr = .ok n)
-    (T R C : List Nest) (s s' : DC) (hst : RowState T R C s)
+    (T R C : List Nest) (s s' : DC) (hst : RowState T R C s) (hni : NoImpl s)
     (h : walk cfg num c s x = .ok s') :
     ∃ Q, Q.length = countPars x.kids ∧ Q ≠ [] ∧ AllPar Q ∧ ParsFrom cfg (x.kids.filter isFlatPar) Q ∧ s'.depth = 3 ∧
       s'.root = T3 T R (C ++ [cellBase cfg.dup (isContinuation pr) R C Q] ++
-        List.replicate n (spanCell cfg.dup (cellBase cfg.dup (isContinuation pr) R C Q))) := by
+        List.replicate n (spanCell cfg.dup (cellBase cfg.dup (isContinuation pr) R C Q))) ∧ s'.openPars = s.openPars := by
   have hdep := elemDepth_regCell x hx
   cases x with
   | comment _ _ => simp [regCell] at hx
@@ -652,8 +710,9 @@ theorem walk_regCell (cfg : PartCfg) (num : Dict Str (List NumAttr)) (c : Bool) 
     obtain ⟨⟨hp, hk⟩, hc⟩ := hx
     have hl : ((Xml.elem i p t m a tx tl ks).ptag == hyperlinkTag) = false := by rw [hp]; exact cellTag_facts.2.2.2.1
     have hm : tagMember (Xml.elem i p t m a tx tl ks).ptag = some "TABLE_CELL" := by rw [hp]; exact cellTag_facts.2.2.2.2
-    simp only [walk, hdep, hl, Bool.false_eq_true, if_false] at h
+    simp only [walk, hdep, hl, Bool.false_eq_true, if_false, setCaretOpen_noImpl s _ _ hni] at h
     obtain ⟨s1, h1, h⟩ := bind_ok h
+    have hop1 := (setCaret_frame s s1 _ _ h1).openPars
     have hs1 : s1.root = T3 T R C ∧ s1.depth = 3 := by
       rcases hst with ⟨hd, hr⟩ | ⟨hd, hr, hC⟩
       · obtain ⟨hr1, hd1⟩ := setCaret_same s s1 3 _ hd (by omega) (by omega) h1
@@ -672,16 +731,20 @@ theorem walk_regCell (cfg : PartCfg) (num : Dict Str (List NumAttr)) (c : Bool) 
     rw [ho] at h2; cases h2
     obtain ⟨s3, h3, h⟩ := bind_ok h
     simp only [if_true] at h3
-    rcases walkL_cell3 cfg num _ T R C ks hk s1 s3 hd1 hr1 h3 with ⟨h0, _, _⟩ | ⟨Q, hrq, hdq, hlen, hne, hall, hfrom⟩
+    obtain ⟨hop3, hrest⟩ := walkL_cell3 cfg num _ T R C ks hk s1 s3 hd1 hr1 (NoImpl_of_openPars hop1 hni) h3
+    rcases hrest with ⟨h0, _, _⟩ | ⟨Q, hrq, hdq, hlen, hne, hall, hfrom⟩
     · omega
     · obtain ⟨s4, h4, h⟩ := bind_ok h
       have hcl : closeStep cfg s3 (.elem i p t m a tx tl ks) = closeTableCell cfg.dup s3 (.elem i p t m a tx tl ks) := by
-        unfold closeStep; rw [hm]; rfl
+        rw [closeStep_noImpl cfg s3 _ (NoImpl_of_openPars (hop3.trans hop1) hni)]
+        unfold closeStepCore; rw [hm]; rfl
       rw [hcl] at h4
+      have hop4 := closeTableCell_openPars cfg.dup s3 s4 _ h4
       obtain ⟨hr4, h43, h44⟩ := closeTableCell_T4 cfg.dup _ pr n (by rw [hdep]; rfl) hpr hn T R C Q s3 s4 hdq hrq h4
-      obtain ⟨s5, h5, hr5, hd5, _⟩ := setCaret_up s4 3 none (by omega) h43 h44
+      obtain ⟨s5, h5, hr5, hd5, hf5⟩ := setCaret_up s4 3 none (by omega) h43 h44
       rw [h] at h5; cases h5
-      exact ⟨Q, by simpa [Xml.kids] using hlen, hne, hall, by simpa [Xml.kids] using hfrom, hd5, by rw [hr5]; exact hr4⟩
+      exact ⟨Q, by simpa [Xml.kids] using hlen, hne, hall, by simpa [Xml.kids] using hfrom, hd5, by rw [hr5]; exact hr4,
+        hf5.openPars.trans (hop4.trans (hop3.trans hop1))⟩
 
 /-! ## a regular row -/
 
@@ -729,13 +792,13 @@ theorem goodCell_not_inert (k : Xml) (h : goodCell k = true) : inert k = false :
   | pi _ => simp [goodCell, regCell] at h
 
 theorem walkL_rowKids (cfg : PartCfg) (num : Dict Str (List NumAttr)) (c : Bool) (T R : List Nest) :
-    ∀ (ks : List Xml), rowKids ks = true → ∀ (C : List Nest) (s s' : DC), RowState T R C s →
+    ∀ (ks : List Xml), rowKids ks = true → ∀ (C : List Nest) (s s' : DC), RowState T R C s → NoImpl s →
       walkL cfg num c s ks = .ok s' →
-      ∃ outs, CellsMatch cfg (ks.filter goodCell) outs ∧ RowState T R (rowCells cfg.dup R C outs) s'
-  | [], _, C, s, s', hst, h => by
+      ∃ outs, CellsMatch cfg (ks.filter goodCell) outs ∧ RowState T R (rowCells cfg.dup R C outs) s' ∧ s'.openPars = s.openPars
+  | [], _, C, s, s', hst, hni, h => by
     simp only [walkL] at h; have := pure_ok h; subst this
-    exact ⟨[], CellsMatch.nil, hst⟩
-  | k :: ks, hk, C, s, s', hst, h => by
+    exact ⟨[], CellsMatch.nil, hst, rfl⟩
+  | k :: ks, hk, C, s, s', hst, hni, h => by
     simp only [rowKids, Bool.and_eq_true, Bool.or_eq_true] at hk
     simp only [walkL] at h
     obtain ⟨s1, h1, h⟩ := bind_ok h
@@ -750,16 +813,16 @@ theorem walkL_rowKids (cfg : PartCfg) (num : Dict Str (List NumAttr)) (c : Bool)
         cases hn : spanExtra pr with
         | error e => simp [hn] at hprs
         | ok n =>
-          obtain ⟨Q, hlen, hne, hall, hfrom, hd1, hr1⟩ := walk_regCell cfg num c k hreg pr n hpr hn T R C s s1 hst h1
-          obtain ⟨outs, hf, hst'⟩ := walkL_rowKids cfg num c T R ks hk.2 _ s1 s' (Or.inl ⟨hd1, hr1⟩) h
-          refine ⟨⟨n, isContinuation pr, Q⟩ :: outs, ?_, ?_⟩
+          obtain ⟨Q, hlen, hne, hall, hfrom, hd1, hr1, hop1⟩ := walk_regCell cfg num c k hreg pr n hpr hn T R C s s1 hst hni h1
+          obtain ⟨outs, hf, hst', hopq⟩ := walkL_rowKids cfg num c T R ks hk.2 _ s1 s' (Or.inl ⟨hd1, hr1⟩) (NoImpl_of_openPars hop1 hni) h
+          refine ⟨⟨n, isContinuation pr, Q⟩ :: outs, ?_, ?_, hopq.trans hop1⟩
           · rw [List.filter_cons]; simp only [hg, if_true]
             exact CellsMatch.cons ⟨pr, hpr, hn, rfl, hlen, hne, hall, hfrom⟩ hf
           · simpa [rowCells] using hst'
     · rw [walk_inert cfg num k hi c s] at h1
       cases h1
-      obtain ⟨outs, hf, hst'⟩ := walkL_rowKids cfg num c T R ks hk.2 C s s' hst h
-      refine ⟨outs, ?_, hst'⟩
+      obtain ⟨outs, hf, hst', hopq⟩ := walkL_rowKids cfg num c T R ks hk.2 C s s' hst hni h
+      refine ⟨outs, ?_, hst', hopq⟩
       have : goodCell k = false := by
         cases hgk : goodCell k with
         | false => rfl
@@ -825,9 +888,9 @@ def TblState (T R : List Nest) (s : DC) : Prop :=
 
 /-- **a regular row**: one new row whose cells are the row's cells laid out left to right -/
 theorem walk_regRow (cfg : PartCfg) (num : Dict Str (List NumAttr)) (c : Bool) (x : Xml) (hx : regRow x = true)
-    (T R : List Nest) (s s' : DC) (hst : TblState T R s) (h : walk cfg num c s x = .ok s') :
+    (T R : List Nest) (s s' : DC) (hst : TblState T R s) (hni : NoImpl s) (h : walk cfg num c s x = .ok s') :
     ∃ outs, CellsMatch cfg (x.kids.filter goodCell) outs ∧ s'.depth = 2 ∧
-      s'.root = T2 T (R ++ [.list (rowCells cfg.dup R [] outs)]) := by
+      s'.root = T2 T (R ++ [.list (rowCells cfg.dup R [] outs)]) ∧ s'.openPars = s.openPars := by
   cases x with
   | comment _ _ => simp [regRow] at hx
   | pi _ => simp [regRow] at hx
@@ -842,8 +905,9 @@ theorem walk_regRow (cfg : PartCfg) (num : Dict Str (List NumAttr)) (c : Bool) (
       simp [nearestPar, hnp, nearestParL_rowKids ks hk, hcn]
     have hl : ((Xml.elem i p t m a tx tl ks).ptag == hyperlinkTag) = false := by rw [hp]; exact rowTag_facts.2.2.2.1
     have hm : tagMember (Xml.elem i p t m a tx tl ks).ptag = some "TABLE_ROW" := by rw [hp]; exact rowTag_facts.2.2.2.2
-    simp only [walk, hdep, hl, Bool.false_eq_true, if_false] at h
+    simp only [walk, hdep, hl, Bool.false_eq_true, if_false, setCaretOpen_noImpl s _ _ hni] at h
     obtain ⟨s1, h1, h⟩ := bind_ok h
+    have hop1 := (setCaret_frame s s1 _ _ h1).openPars
     have hs1 : s1.root = T2 T R ∧ s1.depth = 2 := by
       rcases hst with ⟨hd, hr⟩ | ⟨hd, hr, hR⟩
       · obtain ⟨hr1, hd1⟩ := setCaret_same s s1 2 _ hd (by omega) (by omega) h1
@@ -862,9 +926,11 @@ theorem walk_regRow (cfg : PartCfg) (num : Dict Str (List NumAttr)) (c : Bool) (
     rw [ho] at h2; cases h2
     obtain ⟨s3, h3, h⟩ := bind_ok h
     simp only [if_true] at h3
-    obtain ⟨outs, hmatch, hst3⟩ := walkL_rowKids cfg num _ T R ks hk [] s1 s3 (Or.inr ⟨hd1, hr1, rfl⟩) h3
+    obtain ⟨outs, hmatch, hst3, hop3⟩ := walkL_rowKids cfg num _ T R ks hk [] s1 s3 (Or.inr ⟨hd1, hr1, rfl⟩) (NoImpl_of_openPars hop1 hni) h3
     obtain ⟨s4, h4, h⟩ := bind_ok h
-    have hcl : closeStep cfg s3 (.elem i p t m a tx tl ks) = .ok s3 := by unfold closeStep; rw [hm]; rfl
+    have hcl : closeStep cfg s3 (.elem i p t m a tx tl ks) = .ok s3 := by
+      rw [closeStep_noImpl cfg s3 _ (NoImpl_of_openPars (hop3.trans hop1) hni)]
+      unfold closeStepCore; rw [hm]; rfl
     rw [hcl] at h4; cases h4
     -- at least one cell: the row exists
     have hlen : (rowCells cfg.dup R [] outs).length ≥ 1 := by
@@ -877,9 +943,9 @@ theorem walk_regRow (cfg : PartCfg) (num : Dict Str (List NumAttr)) (c : Bool) (
       | nil => exact absurd rfl this
       | cons o os => simp; omega
     rcases hst3 with ⟨hd3, hr3⟩ | ⟨_, _, hC⟩
-    · obtain ⟨s5, h5, hr5, hd5, _⟩ := setCaret_up s3 2 none (by omega) (by omega) (by omega)
+    · obtain ⟨s5, h5, hr5, hd5, hf5⟩ := setCaret_up s3 2 none (by omega) (by omega) (by omega)
       rw [h] at h5; cases h5
-      exact ⟨outs, by simpa [Xml.kids] using hmatch, hd5, by rw [hr5, hr3]; rfl⟩
+      exact ⟨outs, by simpa [Xml.kids] using hmatch, hd5, by rw [hr5, hr3]; rfl, hf5.openPars.trans (hop3.trans hop1)⟩
     · rw [hC] at hlen; simp at hlen
 
 /-! ## a regular table -/
@@ -918,26 +984,26 @@ theorem tableRows_length (dup : Bool) : ∀ (outs : List (List CellOut)) (R : Li
   | o :: os, R => by simp only [tableRows, tableRows_length dup os, List.length_append, List.length_cons, List.length_nil]; omega
 
 theorem walkL_tblKids (cfg : PartCfg) (num : Dict Str (List NumAttr)) (c : Bool) (T : List Nest) :
-    ∀ (ks : List Xml), tblKids ks = true → ∀ (R : List Nest) (s s' : DC), TblState T R s →
+    ∀ (ks : List Xml), tblKids ks = true → ∀ (R : List Nest) (s s' : DC), TblState T R s → NoImpl s →
       walkL cfg num c s ks = .ok s' →
-      ∃ outs, RowsMatch cfg (ks.filter regRow) outs ∧ TblState T (tableRows cfg.dup R outs) s'
-  | [], _, R, s, s', hst, h => by
+      ∃ outs, RowsMatch cfg (ks.filter regRow) outs ∧ TblState T (tableRows cfg.dup R outs) s' ∧ s'.openPars = s.openPars
+  | [], _, R, s, s', hst, hni, h => by
     simp only [walkL] at h; have := pure_ok h; subst this
-    exact ⟨[], RowsMatch.nil, hst⟩
-  | k :: ks, hk, R, s, s', hst, h => by
+    exact ⟨[], RowsMatch.nil, hst, rfl⟩
+  | k :: ks, hk, R, s, s', hst, hni, h => by
     simp only [tblKids, Bool.and_eq_true, Bool.or_eq_true] at hk
     simp only [walkL] at h
     obtain ⟨s1, h1, h⟩ := bind_ok h
     rcases hk.1 with hg | hi
-    · obtain ⟨o, hm, hd1, hr1⟩ := walk_regRow cfg num c k hg T R s s1 hst h1
-      obtain ⟨outs, hf, hst'⟩ := walkL_tblKids cfg num c T ks hk.2 _ s1 s' (Or.inl ⟨hd1, hr1⟩) h
-      refine ⟨o :: outs, ?_, by simpa [tableRows] using hst'⟩
+    · obtain ⟨o, hm, hd1, hr1, hop1⟩ := walk_regRow cfg num c k hg T R s s1 hst hni h1
+      obtain ⟨outs, hf, hst', hopq⟩ := walkL_tblKids cfg num c T ks hk.2 _ s1 s' (Or.inl ⟨hd1, hr1⟩) (NoImpl_of_openPars hop1 hni) h
+      refine ⟨o :: outs, ?_, by simpa [tableRows] using hst', hopq.trans hop1⟩
       rw [List.filter_cons]; simp only [hg, if_true]
       exact RowsMatch.cons hm hf
     · rw [walk_inert cfg num k hi c s] at h1
       cases h1
-      obtain ⟨outs, hf, hst'⟩ := walkL_tblKids cfg num c T ks hk.2 R s s' hst h
-      refine ⟨outs, ?_, hst'⟩
+      obtain ⟨outs, hf, hst', hopq⟩ := walkL_tblKids cfg num c T ks hk.2 R s s' hst hni h
+      refine ⟨outs, ?_, hst', hopq⟩
       have : regRow k = false := by
         cases hgk : regRow k with
         | false => rfl
@@ -983,9 +1049,9 @@ row's cells are the source cells laid out left to right (`rowCells`): a cell's p
 copy of the cell above at that grid column for a vertically continued cell when duplication is on —
 followed by `gridSpan − 1` copies (duplication on) or single empty paragraphs (off). -/
 theorem walk_regTbl (cfg : PartCfg) (num : Dict Str (List NumAttr)) (c : Bool) (x : Xml) (hx : regTbl x = true)
-    (s s' : DC) (h1 : 1 ≤ s.depth) (h4 : s.depth ≤ 4) (h : walk cfg num c s x = .ok s') :
+    (s s' : DC) (h1 : 1 ≤ s.depth) (h4 : s.depth ≤ 4) (hni : NoImpl s) (h : walk cfg num c s x = .ok s') :
     ∃ outs, RowsMatch cfg (x.kids.filter regRow) outs ∧ s'.depth = 1 ∧
-      s'.root = s.root ++ [.list (tableRows cfg.dup [] outs)] := by
+      s'.root = s.root ++ [.list (tableRows cfg.dup [] outs)] ∧ s'.openPars = s.openPars := by
   cases x with
   | comment _ _ => simp [regTbl] at hx
   | pi _ => simp [regTbl] at hx
@@ -1000,10 +1066,11 @@ theorem walk_regTbl (cfg : PartCfg) (num : Dict Str (List NumAttr)) (c : Bool) (
       simp [nearestPar, hnp, nearestParL_tblKids ks hk, hcn]
     have hl : ((Xml.elem i p t m a tx tl ks).ptag == hyperlinkTag) = false := by rw [hp]; exact tblTag_facts.2.2.2.1
     have hm : tagMember (Xml.elem i p t m a tx tl ks).ptag = some "TABLE" := by rw [hp]; exact tblTag_facts.2.2.2.2
-    simp only [walk, hdep, hl, Bool.false_eq_true, if_false] at h
+    simp only [walk, hdep, hl, Bool.false_eq_true, if_false, setCaretOpen_noImpl s _ _ hni] at h
     obtain ⟨s1, hs1, h⟩ := bind_ok h
-    obtain ⟨s1', hs1', hr1, hd1, _⟩ := setCaret_up s 1 (some t.name) (by omega) h1 h4
+    obtain ⟨s1', hs1', hr1, hd1, hf1⟩ := setCaret_up s 1 (some t.name) (by omega) h1 h4
     rw [hs1] at hs1'; cases hs1'
+    have hop1 := hf1.openPars
     obtain ⟨roots, hro, h⟩ := bind_ok h
     have := pure_ok hro; subst this
     obtain ⟨⟨s2, rec⟩, h2, h⟩ := bind_ok h
@@ -1011,18 +1078,20 @@ theorem walk_regTbl (cfg : PartCfg) (num : Dict Str (List NumAttr)) (c : Bool) (
     rw [ho] at h2; cases h2
     obtain ⟨s3, h3, h⟩ := bind_ok h
     simp only [if_true] at h3
-    obtain ⟨outs, hmatch, hst3⟩ := walkL_tblKids cfg num _ s.root ks hk [] s1 s3 (Or.inr ⟨hd1, hr1, rfl⟩) h3
+    obtain ⟨outs, hmatch, hst3, hop3⟩ := walkL_tblKids cfg num _ s.root ks hk [] s1 s3 (Or.inr ⟨hd1, hr1, rfl⟩) (NoImpl_of_openPars hop1 hni) h3
     obtain ⟨s4, h4', h⟩ := bind_ok h
-    have hcl : closeStep cfg s3 (.elem i p t m a tx tl ks) = .ok s3 := by unfold closeStep; rw [hm]; rfl
+    have hcl : closeStep cfg s3 (.elem i p t m a tx tl ks) = .ok s3 := by
+      rw [closeStep_noImpl cfg s3 _ (NoImpl_of_openPars (hop3.trans hop1) hni)]
+      unfold closeStepCore; rw [hm]; rfl
     rw [hcl] at h4'; cases h4'
     have hlen : (tableRows cfg.dup [] outs).length ≥ 1 := by
       rw [tableRows_length]
       have := hmatch.length_eq
       unfold countRows at hc; simp; omega
     rcases hst3 with ⟨hd3, hr3⟩ | ⟨_, _, hR⟩
-    · obtain ⟨s5, h5, hr5, hd5, _⟩ := setCaret_up s3 1 none (by omega) (by omega) (by omega)
+    · obtain ⟨s5, h5, hr5, hd5, hf5⟩ := setCaret_up s3 1 none (by omega) (by omega) (by omega)
       rw [h] at h5; cases h5
-      exact ⟨outs, by simpa [Xml.kids] using hmatch, hd5, by rw [hr5, hr3]; rfl⟩
+      exact ⟨outs, by simpa [Xml.kids] using hmatch, hd5, by rw [hr5, hr3]; rfl, hf5.openPars.trans (hop3.trans hop1)⟩
     · rw [hR] at hlen; simp at hlen
 
 end D2P
